@@ -40,6 +40,12 @@ struct Tracked {
     ~Tracked() { --g_trackedLive; }
 };
 
+// something that is not T but converts to the move-only T (and owns its value until it does)
+struct Boxed {
+    std::unique_ptr<Tracked> p;
+    operator std::unique_ptr<Tracked>() && { return std::move(p); }
+};
+
 // lives inside a continuation's closure: counts closures that have not been released
 struct CaptureToken {
     CaptureToken() { ++g_captureLive; }
@@ -109,11 +115,13 @@ public:
     int step = 0;
     bool reentered = false, ctxDiedBeforeFinish = false;
     bool abandon = false;
+    bool convertingFinish = false;
 
     Runner(const Plan &p, Trace &t, RunResult &r) : plan(p), tr(t), res(r)
     {
         nPairs = (int)std::max<qint64>(1, std::min<qint64>(3, plan.knob(QStringLiteral("pairs"), 2)));
         abandon = plan.knob(QStringLiteral("abandon")) == 1;
+        convertingFinish = plan.knob(QStringLiteral("convFinish")) == 1;
         promises.resize(nPairs);
         tasks.resize(nPairs);
         keeper.resize(nPairs);
@@ -174,6 +182,15 @@ public:
         auto &p = promises[i].empty() ? *keeper[i] : promises[i].back();
         if constexpr (isVoid) {
             p.finish();
+        } else if (convertingFinish) {
+            // the converting overload finish(U &&) with U != T (what finish(QXmppError{...}) on a variant-valued promise uses)
+            if constexpr (std::is_same_v<T, Tracked>) {
+                int raw = v;
+                p.finish(std::move(raw));
+            } else {
+                Boxed raw { std::make_unique<Tracked>(v) };   // owns its value, converts to T on demand
+                p.finish(std::move(raw));
+            }
         } else {
             p.finish(Traits<T>::make(v));
         }
@@ -423,7 +440,8 @@ public:
         Prng r(derive(seed, "c13"));
         p.knobs[QStringLiteral("type")] = r.uniform(3);
         p.knobs[QStringLiteral("pairs")] = r.range(1, 3);
-        p.knobs[QStringLiteral("abandon")] = (qint64)(mix64(seed, 0xaba0) % 100 < 20);   // unfinished promises are dropped at the end instead of finished
+        p.knobs[QStringLiteral("abandon")] = (qint64)(mix64(seed, 0xaba0) % 100 < 20);
+        p.knobs[QStringLiteral("convFinish")] = (qint64)(mix64(seed, 0xc0f1) % 100 < 35);   // promises are finished through the converting overload finish(U &&), U != T   // unfinished promises are dropped at the end instead of finished
         const int n = (int)r.range(2, tier == QLatin1String("thorough") ? 22 : 14);
         for (int i = 0; i < n; ++i) {
             const qint64 pair = r.uniform(3);
